@@ -81,11 +81,17 @@ func (c *Client) GetPeers(amount uint8) ([]PeerAddress, error) {
 	if err := c.SendMessage(msg); err != nil {
 		return nil, err
 	}
-	peers, ok := <-c.sharePeersChan
-	if !ok {
+	// Wait for the reply, but don't wait forever if the protocol shuts down
+	// (e.g. the connection is closed) before the peer answers
+	select {
+	case peers, ok := <-c.sharePeersChan:
+		if !ok {
+			return nil, protocol.ErrProtocolShuttingDown
+		}
+		return peers, nil
+	case <-c.DoneChan():
 		return nil, protocol.ErrProtocolShuttingDown
 	}
-	return peers, nil
 }
 
 func (c *Client) messageHandler(msg protocol.Message) error {
